@@ -94,6 +94,9 @@ def main():
         if len(rows) == 1:
             variants.append(("1d", rows[0], want[0], want_ok[0]))
         variants.append(("2d", rows, want, want_ok))
+        if rows.ndim == 2 and rows.shape[0] >= 2 and rows.shape[1] >= 2:
+            # the same batch in column-major memory layout (what `.T` of a stored array or numpy.asfortranarray gives)
+            variants.append(("2d", np.asfortranarray(rows), want, want_ok))
         for shape, arr, w, wok in variants:
             for pa, ra in (
                 (periodic or None, reflective or None),
@@ -198,6 +201,38 @@ def main():
     factors = {"bounds": [{"periodic": [0]}, {"reflective": [1]}, {"periodic": [1], "reflective": [0]}, {"periodic": [0, 1]}], "sample": ["tpcn", "rwm"]}
     jobs = sysrun.product_jobs(factors, {"n_particles": 8, "clustering": False}, ck.seed + 16, n_total=24)
     sc, _tr = sysrun.system_part(ck, "C16", jobs, lambda t: (t["meta"]["label"], t["meta"]["seed"]) if any(e["ev"] == "MutateBegin" for e in t["events"]) else None)
+    # ---- the kernels fold with THE map: what a runner proposes for a designated coordinate is the specified fold of the raw
+    # proposal, also far outside the cube (several box lengths beyond a wall).  Raw proposal = u + sigma * L z with scripted z.
+    runner_cases = 0
+    import tempest.modes as _modes
+
+    real_randn = np.random.randn
+    for cls_name in ("RWMRunner", "TPCNRunner"):
+        cls = getattr(mcmc, cls_name, None)
+        if cls is None or cls_name == "TPCNRunner":
+            continue   # tpCN's raw proposal involves a gamma draw: covered by C03's scripted replays on folded coordinates
+        for per, refl in (([0], [1]), ([1], [0]), ([0, 1], None), (None, [0, 1])):
+            for zs in ([3.75, -5.25], [-2.5, 2.25], [17.0, -40.5], [0.125, 1.5]):
+                u0 = np.array([[0.5, 0.25]])
+                try:
+                    ms = _modes.ModeStatistics(means=np.array([[0.5, 0.5]]), covariances=np.array([np.eye(2)]), degrees_of_freedom=np.array([1e6]))
+                    r = cls(u=u0, x=u0.copy(), logl=np.zeros(1), blobs=None, assignments=np.zeros(1, dtype=int), beta=1.0, mode_stats=ms,
+                            log_likelihood=lambda X: (np.zeros(len(X)), None), prior_transform=lambda v: v, n_steps=1, n_max=1,
+                            periodic=(np.array(per) if per else None), reflective=(np.array(refl) if refl else None), verbose=False)
+                    r.sigmas = np.ones_like(np.asarray(r.sigmas, dtype=float))
+                    np.random.randn = lambda *a, _z=zs: np.array(_z, dtype=float)
+                    try:
+                        got = np.asarray(r._propose(0), dtype=float)
+                    finally:
+                        np.random.randn = real_randn
+                except Exception as ex:
+                    raise RuntimeError(f"runner fold probe could not be built / driven ({ex!r})") from ex
+                raw = u0[0] + np.asarray(zs)
+                want_r = np.array([float(fold_exact("periodic" if (per and j in per) else "reflective" if (refl and j in refl) else "hard", Fraction(float(raw[j])))) for j in range(2)])
+                runner_cases += 1
+                if got.shape != (2,) or not np.allclose(got, want_r, rtol=0, atol=1e-12):
+                    ck.violation("runner:fold", f"{cls_name}._propose with periodic={per} reflective={refl}: raw proposal {raw.tolist()} became {got.tolist()}, the specified fold gives {want_r.tolist()}",
+                                 {"runner": cls_name, "periodic": per, "reflective": refl, "z": zs})
     ck.assumptions += [
         "numpy float64 arithmetic is IEEE-754 (floor, fmod and subtraction correctly rounded)",
         "lattice replays use dyadic M so k/M is exact in binary floating point",
@@ -212,6 +247,7 @@ def main():
         "exhaustive": True,
         "oracle_points_validated_against_spec": oracle_checked,
         "ieee_cases": ieee,
+        "runner_level_fold_cases": runner_cases,
         "apalache_unbounded_fold_identities": apa,
         "system_runs": sc["system_runs"], "system_events_validated": sc["system_events_validated"],
         "tlc_coverage": {k: list(v) for k, v in res.coverage.items()},
